@@ -1671,7 +1671,7 @@ func inlinable(f *ssa.Function) bool {
 		if f.Signature.Recv() != nil {
 			return false
 		}
-		return !forkAnchors[f.Name()]
+		return !forkAnchors[f.Pkg.Pkg.Name()+"."+f.Name()]
 	case modPath + "/ed25519/internal/edwards25519", modPath + "/ed25519/internal/edwards25519/field":
 		return false
 	}
@@ -1681,9 +1681,9 @@ func inlinable(f *ssa.Function) bool {
 // forkAnchors: unexported functions of the ECDSA/Ed25519 forks that the rules
 // name as steps of the algorithms (they stay opaque calls in terms).
 var forkAnchors = map[string]bool{
-	"hashBlind": true, "randFieldElement": true, "sign": true, "verify": true, "signGeneric": true, "verifyGeneric": true,
-	"hashToInt": true, "fermatInverse": true, "blindKeySign": true, "signInternal": true, "signNISTEC": true, "verifyNISTEC": true,
-	"signAsm": true, "verifyAsm": true, "newPublicKey": true, "newPrivateKey": true, "newKeyFromSeed": true,
+	"ecdsa.hashBlind": true, "ecdsa.randFieldElement": true, "ecdsa.sign": true, "ecdsa.verify": true, "ecdsa.signGeneric": true, "ecdsa.verifyGeneric": true,
+	"ecdsa.hashToInt": true, "ecdsa.fermatInverse": true, "ecdsa.signNISTEC": true, "ecdsa.verifyNISTEC": true, "ecdsa.signAsm": true, "ecdsa.verifyAsm": true,
+	"ed25519.blindKeySign": true, "ed25519.signInternal": true, "ed25519.sign": true, "ed25519.verify": true, "ed25519.newKeyFromSeed": true,
 }
 
 // isDecoder: the function reads through a cryptobyte.String; such functions
